@@ -1,3 +1,4 @@
 pub mod frames;
+pub mod sig;
 pub mod strat;
 pub mod tls;
